@@ -165,6 +165,27 @@ def check_crashes(ck):
             elif ["Finished", 1] not in [o for s in rr["steps"] for o in s["obs"]] + rr["late"]:
                 ck.fail_input("C08:crash-left-task-running", "the other service task was not stopped",
                               {"case": case, "observed": rr})
+    # a task whose cleanup raises while it unwinds from the cancellation that teardown sent it
+    for nested in (False, True):
+        for be in ("asyncio", "trio"):
+            for action in ("ACancel", "ACallRaises"):
+                for cleanup in (0, 1):
+                    case = {"svcs": [{"action": action, "run": 0, "ends": False, "cleanup": cleanup, "crash_on_cancel": True,
+                                      "async_action": cleanup == 1},
+                                     {"action": "ACancel", "run": 0, "ends": False, "cleanup": 0}],
+                            "prog": [["RegCb", 0], ["StartSvc", 1], ["StartSvc", 0], ["RegCb", 1], ["EndBlock"]],
+                            "nested": nested, "choices": [], "backend": be,
+                            "gates": ["B", "B", "B", "B", "B", "T0", "T0"]}
+                    r = ck.run_impl("impl_svc.py", [{"cases": [case]}])[0]
+                    rr = r["results"][0] if "results" in r else {"crash": r}
+                    n += 1
+
+                    def has_crash(o):
+                        return isinstance(o, dict) and ("crash" in o or any(has_crash(x) for x in o.get("group", [])))
+                    if "crash" in rr or not has_crash(rr.get("outcome")):
+                        ck.fail_input("C08:crash-vanished", f"a service task raised while unwinding from the cancellation "
+                                      f"sent at teardown ({action}) but the root context ended with {rr.get('outcome')}",
+                                      {"case": case, "observed": rr})
     return n
 
 
@@ -230,8 +251,21 @@ def replay(ck: Check, obj) -> int:
     rp = obj.get("replay") or obj["no_longer_checks"][0]["detail"]
     if "case" in rp:
         rp = rp["case"]
-    r = ck.run_impl("impl_svc.py", [{"cases": [{"svcs": rp["svcs"], "prog": rp["prog"], "nested": rp["nested"],
-                                                 "choices": rp["choices"], "backend": rp["backend"]}]}])[0]["results"][0]
+    case = {"svcs": rp["svcs"], "prog": rp["prog"], "nested": rp["nested"], "choices": rp["choices"],
+            "backend": rp["backend"]}
+    if rp.get("gates"):
+        case["gates"] = rp["gates"]
+    r = ck.run_impl("impl_svc.py", [{"cases": [case]}])[0]["results"][0]
+    if any(sv.get("crash") or sv.get("crash_on_cancel") for sv in rp["svcs"]):
+        # a fixed scenario: a service task raises; the exception must come out of the root context
+        def has_crash(o):
+            return isinstance(o, dict) and ("crash" in o or any(has_crash(x) for x in o.get("group", [])))
+        for s_ in r.get("steps", []):
+            print(s_)
+        print("outcome:", r.get("outcome"))
+        lost = not has_crash(r.get("outcome"))
+        print("ORACLE: C08:crash-vanished" if lost else "the exception came out")
+        return 1 if lost else 0
     for s in r.get("steps", []):
         print(s)
     print("left:", r.get("left"), "outcome:", r.get("outcome"))
